@@ -135,6 +135,7 @@ class MiniEval:
         self.depth = depth
         # module-level names (visible in every function that is stepped into, unlike the locals in env)
         self.globals = globals_ if globals_ is not None else {}
+        self._exc_stack = []
 
     def fail(self, node, why=''):
         raise AnalysisError(self.rule, f"construct outside the mini-evaluator fragment: "
@@ -243,6 +244,11 @@ class MiniEval:
                 else:
                     vals.append(self.ev(x))
             return tuple(vals) if isinstance(e, ast.Tuple) else vals
+        if isinstance(e, ast.Set):
+            try:
+                return {self.ev(x) for x in e.elts}
+            except TypeError:
+                raise _Fault('TypeError') from None
         if isinstance(e, ast.Dict):
             out = {}
             for k, v in zip(e.keys, e.values):
@@ -365,6 +371,8 @@ class MiniEval:
             return self.env[norm(e.value)].attrs[e.attr]
         if isinstance(e, ast.Call) and norm(e.func) in self.env and callable(self.env[norm(e.func)]):
             args_, kws_ = self._call_args(e)
+            if getattr(self.env[norm(e.func)], 'wants_me', False):
+                kws_['_me'] = self         # a stand-in that re-enters the interpreted program
             try:
                 return self.env[norm(e.func)](*args_, **kws_)
             except (_Ret, _Raised, _Fault, _Break, _Continue, AnalysisError):
@@ -459,6 +467,12 @@ class MiniEval:
                 names = [x for x in (t.elts if isinstance(t, ast.Tuple) else [t])]
                 types = []
                 for n in names:
+                    if isinstance(n, (ast.Name, ast.Attribute)) and isinstance(self.env.get(norm(n)), type):
+                        types.append(self.env[norm(n)])
+                        continue
+                    if isinstance(n, ast.Name) and n.id in self.globals and isinstance(self.globals[n.id], type):
+                        types.append(self.globals[n.id])
+                        continue
                     if not (isinstance(n, (ast.Name, ast.Attribute)) and norm(n) in _TYPES):
                         self.fail(e, '(isinstance against an unknown type)')
                     types.append(_TYPES[norm(n)])
@@ -503,6 +517,31 @@ class MiniEval:
                     raise _Fault('TypeError')
                 return abs(v)
         self.fail(e)
+
+    _EXC_PARENTS = {'KeyError': 'LookupError', 'IndexError': 'LookupError', 'LookupError': 'Exception',
+                    'ValueError': 'Exception', 'TypeError': 'Exception', 'RuntimeError': 'Exception',
+                    'AttributeError': 'Exception', 'ZeroDivisionError': 'ArithmeticError',
+                    'ArithmeticError': 'Exception', 'StopIteration': 'Exception', 'OSError': 'Exception',
+                    'NotImplementedError': 'RuntimeError', 'RecursionError': 'RuntimeError',
+                    'UnicodeError': 'ValueError', 'TimeoutError': 'OSError', 'AssertionError': 'Exception',
+                    'EdzedError': 'Exception', 'EdzedCircuitError': 'EdzedError',
+                    'EdzedInvalidState': 'EdzedError', 'EdzedUnknownEvent': 'EdzedError',
+                    'CancelledError': 'BaseException', 'Exception': 'BaseException'}
+
+    def _match_handler(self, handlers, exc):
+        name = str(exc.name).split('(')[0].rsplit('.', 1)[-1]
+        chain = [name]
+        while chain[-1] in self._EXC_PARENTS:
+            chain.append(self._EXC_PARENTS[chain[-1]])
+        if chain[-1] != 'BaseException':
+            chain += ['Exception', 'BaseException']      # an unknown class: an ordinary exception
+        for h in handlers:
+            if h.type is None:
+                return h
+            types_ = h.type.elts if isinstance(h.type, ast.Tuple) else [h.type]
+            if any(norm(t).rsplit('.', 1)[-1] in chain for t in types_):
+                return h
+        return None
 
     def _call_args(self, e):
         args_ = []
@@ -666,6 +705,19 @@ class MiniEval:
             elif isinstance(st, ast.Expr) and isinstance(st.value, (ast.Call, ast.Await)) is True and \
                     isinstance(st.value, ast.Call):
                 self.ev(st.value)           # a call for its effect (environment object / helper)
+            elif isinstance(st, ast.Delete):
+                for t in st.targets:
+                    if isinstance(t, ast.Subscript):
+                        base = self.ev(t.value)
+                        key = self.ev(t.slice)
+                        try:
+                            del base[key]
+                        except (KeyError, IndexError, TypeError) as exc:
+                            raise _Fault(type(exc).__name__) from None
+                    elif isinstance(t, ast.Name):
+                        self.env.pop(t.id, None)
+                    else:
+                        self.fail(st)
             elif isinstance(st, ast.FunctionDef) and not st.decorator_list:
                 fn_ = self._closure_live(st)
                 if fn_ is None:
@@ -678,24 +730,30 @@ class MiniEval:
                     name = norm(exc.func)
                 elif exc is not None:
                     name = norm(exc)
+                if name is None and self._exc_stack:
+                    raise self._exc_stack[-1]
                 raise _Raised(name or 're-raise')
             elif isinstance(st, ast.AugAssign) and type(st.op) in _BINOPS:
                 load = copy.copy(st.target)
                 load.ctx = ast.Load()
                 self.assign(st.target, self.ev(ast.BinOp(left=load, op=st.op, right=st.value)))
-            elif isinstance(st, ast.For) and not st.orelse:
+            elif isinstance(st, ast.For):
                 seq = self.ev(st.iter)
                 if not isinstance(seq, (list, tuple, set, frozenset, dict, str, _cabc.Mapping)) and \
                         type(seq).__name__ != 'generator':
                     raise _Fault('TypeError')
+                broke = False
                 for item in list(seq):
                     self.assign(st.target, item)
                     try:
                         self.block(st.body)
                     except _Break:
+                        broke = True
                         break
                     except _Continue:
                         continue
+                if not broke and st.orelse:
+                    self.block(st.orelse)
             elif isinstance(st, ast.While) and not st.orelse:
                 n_ = 0
                 while self.ev(st.test):
@@ -712,22 +770,42 @@ class MiniEval:
                 raise _Break()
             elif isinstance(st, ast.Continue):
                 raise _Continue()
-            elif isinstance(st, ast.Try) and not st.finalbody:
+            elif isinstance(st, ast.Try):
+                try:
+                    try:
+                        self.block(st.body)
+                    except (_Fault, _Raised) as exc:
+                        h = self._match_handler(st.handlers, exc)
+                        if h is None:
+                            raise
+                        if h.name:
+                            self.env[h.name] = f'<{exc.name}>'
+                        self._exc_stack.append(exc)
+                        try:
+                            self.block(h.body)
+                        finally:
+                            self._exc_stack.pop()
+                    else:
+                        self.block(st.orelse)
+                finally:
+                    if st.finalbody:
+                        self.block(st.finalbody)
+            elif isinstance(st, ast.With):
+                ctxs = []
+                for item in st.items:
+                    cm = self.ev(item.context_expr)
+                    if not isinstance(cm, Obj):
+                        self.fail(st, '(context manager that is not an environment object)')
+                    val = cm.methods['__enter__']() if '__enter__' in cm.methods else cm
+                    if item.optional_vars is not None:
+                        self.assign(item.optional_vars, val)
+                    ctxs.append(cm)
                 try:
                     self.block(st.body)
-                except _Fault as flt:
-                    for h in st.handlers:
-                        ht = norm(h.type) if h.type is not None else 'Exception'
-                        if any(t in ht for t in ('Exception', flt.name)) or \
-                                (flt.name in ('KeyError', 'IndexError') and 'LookupError' in ht):
-                            if h.name:
-                                self.env[h.name] = f'<{flt.name}>'
-                            self.block(h.body)
-                            break
-                    else:
-                        raise
-                else:
-                    self.block(st.orelse)
+                finally:
+                    for cm in reversed(ctxs):
+                        if '__exit__' in cm.methods:
+                            cm.methods['__exit__']()
             else:
                 self.fail(st)
 
